@@ -190,13 +190,25 @@ type oneTimeListener struct {
 	evt     EventName
 	emitter *emmiter
 	fn      Listener
+	entry   *eventEntry
 }
 
 func (l *oneTimeListener) execute(vals ...any) {
 	l.fired.Do(func() {
-		defer l.emitter.RemoveListener(l.evt, l.fn)
+		// remove this registration itself: RemoveListener(l.fn) would remove the
+		// first registration of the same function, which may be a permanent one
+		defer l.emitter.removeEntry(l.evt, l.entry)
 		l.fn(vals...)
 	})
+}
+
+// removeEntry removes exactly the given registration from the event's listeners.
+func (e *emmiter) removeEntry(evt EventName, entry *eventEntry) {
+	if evtEntry, ok := e.evtListeners.Load(evt); ok {
+		evtEntry.RangeAndSplice(func(listener *eventEntry, i int) (bool, int, int, []*eventEntry) {
+			return listener == entry, i, 1, nil
+		})
+	}
 }
 
 func (e *emmiter) Once(evt EventName, listeners ...Listener) error {
@@ -210,7 +222,8 @@ func (e *emmiter) Once(evt EventName, listeners ...Listener) error {
 			continue
 		}
 		oneTime := &oneTimeListener{fired: &sync.Once{}, evt: evt, emitter: e, fn: event}
-		events = append(events, &eventEntry{fn: oneTime.execute, ptr: reflect.ValueOf(event).Pointer()})
+		oneTime.entry = &eventEntry{fn: oneTime.execute, ptr: reflect.ValueOf(event).Pointer()}
+		events = append(events, oneTime.entry)
 	}
 	return e.addListeners(evt, events)
 }
